@@ -7,7 +7,10 @@ cd /repo || exit 2
 if [ -n "$(git status --porcelain)" ]; then echo "/repo not clean"; exit 2; fi
 if ! git apply --check "$patch" 2>/dev/null; then echo "patch does not apply"; exit 2; fi
 git apply "$patch"
-trap 'cd /repo && git checkout -- . && git clean -fdq' EXIT
+# the evidence files under /verif/evidence describe the unchanged tree: keep them out of the way
+save=$(mktemp -d /verif/.work/evidence-save.XXXXXX)
+cp -a /verif/evidence/. "$save"/
+trap 'cd /repo && git checkout -- . && git clean -fdq; cp -a "$save"/. /verif/evidence/; rm -rf "$save"' EXIT
 cd /verif
 for p in "$@"; do
   out=$(./bin/vcheck run "$p" --tier "${TIER:-quick}" 2>&1)
